@@ -121,7 +121,9 @@ def g1_miller_loop(ctx, cfg_name, prog, rule='R-GUARD/G1'):
                         why = 'accumulator initialisation does not precede this step'
             ctx.ob(rule, ok, 'G1|%s|%d' % (c['name'], sites), loc_str(c), 'miller_loop: ' + why, cfg=cfg_name,
                    sample=dict(config=cfg_name, call=c['name'], site=loc_str(c), pair_args=objs))
-    ctx.floor('%s step call sites[%s]' % (rule, cfg_name), sites, 9)
+    # today's tree has 9 call sites (the last doubling is written out after the loop); a loop that absorbs it has 6: tangent + line and
+    # chord + line for plain pairs, two stored-line evaluations for prepared pairs.  Below 5 the extractor is blind.
+    ctx.floor('%s step call sites[%s]' % (rule, cfg_name), sites, 5)
 
 
 # ---------------------------------------------------------------- G4/G5 (C05)
